@@ -34,6 +34,7 @@ func c10eval(r *vx.R, c c10case) {
 		return
 	}
 	r.Eval(1)
+	pollute()
 	sealed := gcmref.Seal(refCipher(key), nonce, pt, aad, c.Tag)
 	var input, wantOut []byte
 	if c.Op == "seal" {
